@@ -253,7 +253,8 @@ WORLDS = {"wide": world_wide, "consumers": world_consumers, "happy": world_happy
 def to_sets(v):
     """JSON value -> TLA+ value where every list is a set (behaviour arguments only contain sets)."""
     if isinstance(v, dict):
-        return {k: to_sets(x) for k, x in v.items()}
+        # ToJson renders an empty TLA+ function as []: these keys hold functions, not sets
+        return {k: ({} if (k in ('proofs',) and x == []) else to_sets(x)) for k, x in v.items()}
     if isinstance(v, list):
         return S([to_sets(x) for x in v])
     return v
